@@ -54,6 +54,18 @@ Round 4:
     returned dict), repr, the registers.bin packer, one instruction stepped FROM it (`CPUStepper.step` /
     `CPU.step_snapshot`) -- and must restore the same values into a fresh register file before and after; the same
     snapshot object is applied several times.
+
+Round 5:
+  * LIFECYCLE.  "reset": the register file's own reset verb on the object in use (`LlamaState::reset()`; Python
+    re-creates its register file) -- the history goes on writing and reading the SAME object.  The model returns to
+    the fresh state; every name is read right after the reset and after the following writes / round trips.
+  * NAMES ACROSS THE SNAPSHOT BOUNDARY.  "load {NAME: v}": a snapshot built from explicit named values
+    (`CPURegistersSnapshot(pc=.., temps={n: v})` / a `{"TEMPn": v}` map for `apply_registers`) is applied to a fresh
+    register file, which must read v under NAME.  "collect": the snapshot's dictionary form (`to_dict()` /
+    `collect_registers`) must list under every name what the same register file reads under that name.  Generators put
+    pairwise distinct non-zero values into (subsets of) all 14 TEMPs.
+  * WRITE ORDER inside an overlap group: whole register, an alias alone, the whole register again with an equal /
+    equal-after-truncation / different value (complete sweep over BA, I, F).
 """
 
 from __future__ import annotations
@@ -94,9 +106,18 @@ RULE = ("histories of by-name writes (A,B,BA,IL,IH,I,X,Y,U,S,PC,F,FC,FZ,TEMP0..1
         "registers.bin packer, one instruction stepped from the snapshot; operand = another live snapshot or the "
         "current file) between taking and (repeatedly) applying them; complete sweeps kind x register x start state, "
         "access x unknown name, observer x operand x register changed, plus seeded histories mixing all of it. "
+        "Round 5: the register file's lifecycle verb as an op (LlamaState::reset() on the SAME object, which is then "
+        "written and read on; Python: a re-created Registers/CPU/machine) with the model returning to the fresh state; "
+        "snapshots BUILT from named values (CPURegistersSnapshot(temps={n: v}, ..) / a name->value map for "
+        "apply_registers) applied to a fresh file; the snapshot's dictionary form (to_dict / collect_registers) held "
+        "against the reads of the same file name by name, with pairwise distinct non-zero values in the TEMPs; "
+        "complete sweeps: flag/alias/TEMP write x reset x every write target, whole-register / alias / whole-register "
+        "write order inside BA, I, F with an equal, equal-after-truncation or different second value, TEMP subsets x "
+        "rotations for the named forms; seeded histories mixing them with round trips. "
         "Non-trivial = the history writes a sub-register after "
         "a full-register write of the same register (or vice versa), or interleaves F/FC/FZ(/flag API) writes, "
-        "and reads that register afterwards; or applies a snapshot whose source register file changed after the "
+        "and reads that register afterwards; or resets a register file that held non-zero values and reads it "
+        "back; or carries a non-zero TEMP2..13 by name across the snapshot boundary; or applies a snapshot whose source register file changed after the "
         "snapshot was taken, or that was observed since; or reads registers back after an executed instruction / a "
         "write to a Rust-only name / a rejected operation; "
         "distinct = hash of the op list.")
@@ -2387,6 +2408,16 @@ def run(ctx: Ctx) -> Report:
         "CPU.step_snapshot taking it as input) are read-only uses: what the snapshot restores into a brand-new "
         "Registers() (`apply_to`) / LlamaState (`apply_registers`) must be the same before and after; what the "
         "observers return (diff contents, step results) is not asserted; an observer that raises is not a verdict",
+        "lifecycle: LlamaState::reset() returns the register file to the fresh state -- after it every name reads 0 "
+        "and later writes behave as on LlamaState::new() (reset() is `regs.clear()` plus call-stack / power-state "
+        "clearing; the statement's 'last value written' law continues from there on the same object).  Python has "
+        "no in-place reset of `Registers`; its idiom is a new object, which is what the op does there.  "
+        "CPU.power_on_reset / CoreRuntime::power_on_reset (documented to KEEP registers and flags) are not generated",
+        "named forms of a snapshot: CPURegistersSnapshot's fields pc, ba, .., f and temps[n] / the keys PC, BA, .., "
+        "F, TEMPn of the collect_registers map / the keys of to_dict() name the registers PC, BA, .., F, TEMPn; values "
+        "of a built snapshot are generated inside each register's width (24 bits for TEMPn, both code tables); the "
+        "dictionary form is compared with reads of the SAME register file at the same moment (absent TEMP = 0); "
+        "call_sub_level and any other key are ignored",
         "Python == model and Rust == model imply Python == Rust; a separate differential verdict exists only "
         "for TEMP values",
     ]
